@@ -444,6 +444,15 @@ impl Scenario for Hist {
             cx.state_changes += 1;
         }
         self.world.apply(op, &out);
+        if let Some(rows) = table_rows(&self.sut, &table) {
+            cx.log.u64(rows.len() as u64);
+            for r in rows.iter().take(64) {
+                cx.log.str(&crate::sut::canon_row(r));
+            }
+        }
+        for n in self.sut.db.list_tables() {
+            cx.log.str(&n); // HashMap iteration order of the table registry
+        }
 
         // ---- C24: panics
         if let Out::Panic(p) = &out {
